@@ -86,7 +86,7 @@ func judgeC02(c *Case, tr *hx.Trace, w *ref.World) []Verdict {
 }
 
 func c0102(rep *ev.Reporter, tier string, judge func(c *Case, tr *hx.Trace, w *ref.World) []Verdict) {
-	nShapes, maxCycle := 5, uint64(4)
+	nShapes, maxCycle := 99, uint64(4)
 	bud := NewBudget(300 * time.Second)
 	if tier == "thorough" {
 		nShapes, maxCycle = 99, 6
